@@ -1,7 +1,10 @@
 package rules
 
 import (
+	"fmt"
 	"strings"
+
+	"golang.org/x/tools/go/ssa"
 
 	"saoverif/internal/core"
 	"saoverif/internal/eff"
@@ -16,6 +19,8 @@ func checkC19(r *core.Run) {
 	r.Rule("G-fish: every store write in the two handlers <= GetNode(msg.Creator) found AND (msg.Creator listed in FishmenInfo OR, for recovery, msg.Creator == msg.Provider with the storage status bit)")
 	r.Rule("G-fault: SetFault in ReportFaults <= provider match AND metadata found AND order found AND data id match AND shard listed AND shard found AND shard.Sp == fault.Provider AND shard unexpired")
 	r.Rule("G-selfrec: status := Recovering <= msg.Provider == msg.Creator AND stored fault.Provider == msg.Creator; pledge written is GetPledge(fault.Provider)")
+	r.Rule("CAP-period: Shard.CreatedAt / Shard.Duration are assigned only in Complete and in the expiry roll-over; an assigned-but-unserved shard has no period, which is what the report filter's unexpired test relies on to mean 'the accused holds it'")
+	rulePeriodWriters(r, "CAP-period")
 	r.Assume(aDeps)
 	r.Assume(aCG)
 
@@ -92,4 +97,49 @@ func checkC19(r *core.Run) {
 	})
 	evalArgAll(r, "G-selfrec", "sao/keeper.msgServer.RecoverFaults", fGetPledge, 0, []string{fault + ".Provider", "*complit.Provider"}, "pledge touched by recovery is the accused provider's")
 	evalArgAll(r, "G-selfrec", "sao/keeper.msgServer.RecoverFaults", "node/keeper.Keeper.SetPledge", 0, []string{fGetPledge + "(" + fault + ".Provider)#0", fGetPledge + "(*complit.Provider)#0"}, "pledge persisted by recovery is the accused provider's")
+}
+
+// rulePeriodWriters (CAP-period): a shard's paid period (Shard.CreatedAt,
+// Shard.Duration) is assigned only where a provider has just completed the shard
+// or where the end-blocker rolls it into its next paid period. The fault-report
+// filter (and the expiry logic) take "CreatedAt + Duration > height" as "the
+// provider holds this shard now"; a shard that is only assigned (waiting /
+// migrating) must therefore carry no period.
+func rulePeriodWriters(r *core.Run, id string) {
+	allowed := set("sao/keeper.msgServer.Complete", "sao/keeper.Keeper.HandleExpiredShard")
+	n := 0
+	for _, f := range r.P.SortedFuncs(r.ConsensusFuncs()) {
+		if r.P.IsGenerated(f) || strings.Contains(r.P.Name(f), "/migrations/") || strings.Contains(r.P.Name(f), "migration") {
+			continue
+		}
+		seen := map[string]bool{}
+		for _, b := range f.Blocks {
+			for _, ins := range b.Instrs {
+				st, ok := ins.(*ssa.Store)
+				if !ok {
+					continue
+				}
+				fa, ok := st.Addr.(*ssa.FieldAddr)
+				if !ok || shortTypeName(fa.X.Type()) != "order/types.Shard" {
+					continue
+				}
+				fld := fieldNameT(fa.X.Type(), fa.Field)
+				if fld != "CreatedAt" && fld != "Duration" {
+					continue
+				}
+				if seen[fld] {
+					continue
+				}
+				seen[fld] = true
+				n++
+				key := core.Key(id, r.P.Name(f), "Shard."+fld)
+				if allowed[r.P.Name(f)] {
+					r.Discharge(id, key, r.P.Pos(st.Pos()), "paid period assigned on completion / roll-over")
+				} else {
+					r.Violate(id, key, r.P.Pos(st.Pos()), fmt.Sprintf("%s assigns Shard.%s: a shard that is merely assigned to a provider (waiting / migrating) gets a paid period, so every test of the form CreatedAt + Duration > height (fault-report validity, expiry) treats it as held by that provider although the provider never stored it", r.P.Name(f), fld))
+				}
+			}
+		}
+	}
+	r.Floor("period_writer_sites", n, 4)
 }
